@@ -3784,9 +3784,9 @@ func (l *Lowerer) functionHasForwardRefs(f *parser.FunctionDecl, processedNames,
 	return hasForward
 }
 
-// lowerFunction converts a function declaration to IR.
-func (l *Lowerer) lowerFunction(f *parser.FunctionDecl) error {
-	// Reset local context by clearing maps instead of reallocating.
+// clearFunctionScope empties the function-scope name tables (by clearing the
+// maps instead of reallocating them).
+func (l *Lowerer) clearFunctionScope() {
 	for k := range l.locals {
 		delete(l.locals, k)
 	}
@@ -3812,6 +3812,16 @@ func (l *Lowerer) lowerFunction(f *parser.FunctionDecl) error {
 		delete(l.localAbstractEnvs, k)
 	}
 	l.scopeStack = l.scopeStack[:0]
+}
+
+// lowerFunction converts a function declaration to IR.
+func (l *Lowerer) lowerFunction(f *parser.FunctionDecl) error {
+	// Reset local context. The tables are cleared again when the function is
+	// left: module-scope declarations lowered after it (constants,
+	// const_assert) resolve names through the same evaluators and must not
+	// find this function's bindings.
+	l.clearFunctionScope()
+	defer l.clearFunctionScope()
 	// Reset per-function GlobalVariable expression cache.
 	// Each function gets its own expression arena, so cached handles from
 	// previous functions are invalid.
